@@ -22,16 +22,16 @@ ContentTypes == {"json", "jsonparams", "textplain", "none", "other"}
 SimpleBodies == {"empty", "garbage", "null", "number", "string", "emptyobject", "emptyarray", "truncated"}
 
 QueryClasses == {"valid", "validmutation", "syntaxerror", "unknownfield", "manyopsnoname", "manyopsrightname", "wrongopname",
-                 "roottypename", "introspection", "introspectionmixed", "lonelyinterface"}
+                 "roottypename", "introspection", "introspectionmixed", "introspectionvars", "lonelyinterface"}
 QMember == {"missing", "empty", "number", "null"} \cup QueryClasses
 VMember == {"absent", "null", "object", "string", "array"}
 OMember == {"absent", "null", "string", "number"}
 
-ElemClasses == {"valid", "valid2", "invalidquery", "null", "number", "nestedarray", "missingquery", "string"}
+ElemClasses == {"valid", "valid2", "invalidquery", "introspection", "null", "number", "nestedarray", "missingquery", "string"}
 
 PathClasses == {"ok", "oknested", "oklist", "novariables", "tooshort", "unknownkey", "throughnonnull", "duplicate",
-                "listindexnotnumeric", "listindexoutofrange", "listindexnegative", "listindexmissing",
-                "batchindexmissing", "batchindexnotnumeric", "batchindexoutofrange", "batchindexnegative", "empty"}
+                "listindexnotnumeric", "listindexoutofrange", "listindexnegative", "listindexhuge", "listindexmissing",
+                "batchindexmissing", "batchindexnotnumeric", "batchindexoutofrange", "batchindexnegative", "batchindexhuge", "empty"}
 OpsClasses == {"missing", "garbage", "single", "batch"}
 MapClasses == {"missing", "garbage", "emptymap", "paths"}
 
@@ -51,11 +51,11 @@ InvalidQuery(q, opn) == \/ q \in {"syntaxerror", "unknownfield", "manyopsnoname"
                         \/ q = "manyopsrightname" /\ opn # "string"      \* two operations, no name given
                         \/ q = "wrongopname" /\ opn = "string"            \* a name that is not in the document
 
-ElemDecodable(e) == e \in {"valid", "valid2", "invalidquery"}
+ElemDecodable(e) == e \in {"valid", "valid2", "invalidquery", "introspection"}
 PathOK(p, batch) ==
    IF batch THEN p \in {"ok", "oknested", "oklist"}      \* rendered with the batch index in front
    ELSE p \in {"ok", "oknested", "oklist"}
-BatchPath(p) == p \in {"batchindexmissing", "batchindexnotnumeric", "batchindexoutofrange", "batchindexnegative"}
+BatchPath(p) == p \in {"batchindexmissing", "batchindexnotnumeric", "batchindexoutofrange", "batchindexnegative", "batchindexhuge"}
 
 Outcome(s) ==
    CASE s.f = "simple" ->
